@@ -143,8 +143,20 @@ def validate(v, prop, d, scen, traces):
     return acc
 
 
-def mk_scen(behs, seed, start=0):
-    return [dict(sc=start + i + 1, seed=seed * 100003 + start + i, steps=b, opt=dict(wallets=["w1", "w2"])) for i, b in enumerate(behs)]
+# C04 is anchored in api/wallets.go too (the export handler writes the file, the handlers log): for these properties
+# every second scenario sends export / import / lock / unlock / passphrase changes through the gRPC handlers of
+# api.Server over the same wallet
+API_EVERY = {"C04": 2, "C03": 3, "C01": 4}
+
+
+def mk_scen(behs, seed, start=0, api_every=0):
+    out = []
+    for i, b in enumerate(behs):
+        opt = dict(wallets=["w1", "w2"])
+        if api_every and i % api_every == api_every - 1:
+            opt["api"] = True
+        out.append(dict(sc=start + i + 1, seed=seed * 100003 + start + i, steps=b, opt=opt))
+    return out
 
 
 def run(prop, tier, seed):
@@ -169,8 +181,9 @@ def run(prop, tier, seed):
     behs = behs[:((220 if prop == "C12" else 160) if tier == "quick" else 4000)]
     if prop == "C12":
         behs = vlib.dedup(expand_faults(behs, 500 if tier == "quick" else 5000))
-    scen = mk_scen(behs, seed)
-    log("generated %d distinct behaviours" % len(scen))
+    scen = mk_scen(behs, seed, api_every=API_EVERY.get(prop, 0))
+    v.cov["scenarios_through_api_handlers"] = sum(1 for s in scen if s["opt"].get("api"))
+    log("generated %d distinct behaviours (%d through the gRPC handlers)" % (len(scen), v.cov["scenarios_through_api_handlers"]))
     sf, tf = os.path.join(d, "scen.json"), os.path.join(d, "trace.ndjson")
     total_acc = 0
     for lo in range(0, len(scen), 600):
